@@ -426,7 +426,45 @@ impl Check for Fmt {
                         | k => format!("{:?}", k),
                     },
                 };
-                format!("between `{}` and `{}`", show(if *k == 0 { None } else { base.toks.get(*k - 1) }), show(base.toks.get(*k)))
+                // a gap strictly inside the annotation `@[ .. verbatim .. ]` itself is a position of its own
+                let inside_verbatim_annotation = {
+                    let txt = |t: &reflex::Tok| &base.text[t.start..t.end];
+                    let mut inside = false;
+                    let mut i = 0;
+                    while i + 1 < base.toks.len() {
+                        if txt(&base.toks[i]) == "@" && txt(&base.toks[i + 1]) == "[" {
+                            // find the matching bracket
+                            let mut depth = 0i32;
+                            let mut j = i + 1;
+                            while j < base.toks.len() {
+                                match txt(&base.toks[j]) {
+                                    | "[" => depth += 1,
+                                    | "]" => {
+                                        depth -= 1;
+                                        if depth == 0 {
+                                            break;
+                                        }
+                                    }
+                                    | _ => {}
+                                }
+                                j += 1;
+                            }
+                            if j < base.toks.len() && *k > i && *k <= j && base.text[base.toks[i].start..base.toks[j].end].contains("verbatim") {
+                                inside = true;
+                                break;
+                            }
+                            i = j.max(i + 1);
+                        } else {
+                            i += 1;
+                        }
+                    }
+                    inside
+                };
+                if inside_verbatim_annotation {
+                    "inside a `@[format(verbatim)]` annotation".to_string()
+                } else {
+                    format!("between `{}` and `{}`", show(if *k == 0 { None } else { base.toks.get(*k - 1) }), show(base.toks.get(*k)))
+                }
             }
             | Dev::None => "undeviated".to_string(),
         };
